@@ -41,6 +41,12 @@ LEVEL_TEXT += (
     "interpreted for ten count vectors on tet-like and hex-like cells: "
     "local index i is served by the component function on the entity that "
     "row i of element_dofs numbers.")
+LEVEL_TEXT += (
+    " Added in the hunting round (defects found by independent agents "
+    "on the unchanged tree, DESIGN.md 9.4 / 9.6): "
+    "which entity kinds carry DOFs is decided by the dimension of the "
+    "cells: configurations with element.dim different from it (vector "
+    "elements) added.")
 LEVEL_NOTE = (
     "Trusted: numpy arange/reshape/vstack semantics. Not decided: "
     "properties of concrete meshes (uniqueness of entities is C11), "
